@@ -30,6 +30,8 @@ RULE = ('every registered definition x argument tuples from the typed '
         'computed by a model of the convention; before the valid spellings, '
         'on the same context, calls of the same shapes that must be refused '
         '(mandatory parameter skipped with an empty slot, unknown keyword); '
+        'the conventions sweep repeated under an engine with '
+        'limitIterators=2; '
         'non-trivial = >=3 distinct spellings '
         'applicable and the positional baseline succeeded; distinct = '
         'distinct (definition, filling)')
@@ -52,8 +54,11 @@ ASSUMPTIONS = [
 NONDETERMINISTIC = {'now', 'random', 'localtz'}
 
 
+_LIMIT = [300]
+
+
 def _engine():
-    return common.engine({'yaql.limitIterators': 300,
+    return common.engine({'yaql.limitIterators': _LIMIT[0],
                           'yaql.memoryQuota': 10 ** 6})
 
 
@@ -92,6 +97,8 @@ def model_alias(pyname, conv):
         return _explicit_aliases()[pyname]
     if conv == 'python':
         return pyname.rstrip('_')
+    if conv == 'none':
+        return pyname           # no convention: the python name as it is
     return camel(pyname)
 
 
@@ -387,6 +394,16 @@ def _refused_calls(run, case, d, fill, conv):
 
 
 def check_def(run, case):
+    # (a small iterator limit: the argument list handed to call() is not a
+    # collection of the data)
+    _LIMIT[0] = case.get('limit', 300)
+    try:
+        _check_def(run, case)
+    finally:
+        _LIMIT[0] = 300
+
+
+def _check_def(run, case):
     conv = case.get('conv')
     if 'order' in case:
         # the order in which the contexts of the two conventions come into
@@ -547,6 +564,10 @@ def _conv_shard(run, order, part, parts, fills):
                              'conv': c, 'order': list(order)})
     for c in jobs[part::parts]:
         check_def(run, c)
+    # the same definitions under an engine whose iterator limit is smaller
+    # than most argument lists
+    for c in [dict(j, limit=2) for j in jobs if j['fill'] == 0][part::parts]:
+        check_def(run, c)
 
 
 def run(run):
@@ -554,9 +575,9 @@ def run(run):
     _engine()
     # before anything creates a context in this process (shards fork)
     orders = [(None, 'python'), ('python', None), ('python', 'camel'),
-              ('camel', 'python')]
-    run.shards(_conv_shard, [(o, i, 4, 6 if full else 2)
-                             for o in orders for i in range(4)],
+              ('camel', 'python'), ('none', None), ('python', 'none')]
+    run.shards(_conv_shard, [(o, i, 3, 6 if full else 2)
+                             for o in orders for i in range(3)],
                watchdog=120)
     common.std_context(delegates=True)
     for d in W.definitions():
